@@ -122,7 +122,7 @@ EXPLANATION = {
            "remainder flushed at completion iff non-empty; length-prefix defaults agree and reach to_bytes/from_bytes; CMP-2 both "
            "availability comparisons are inclusive in linear normal form, for the first and for the following frames of a chunk (two loop iterations); carry-over = unconsumed bytes. Not decided: all chunkings.",
     "C16": _COMMON + "Decided clauses: OB-1 every chunk goes through the one codec object and its output is emitted; OB-2 flush output "
-           "before on_completed; OB-3 completion without eof ends in on_error only, one terminal per path; AG-5 gzip wbits equal (31); AG-6 "
+           "before on_completed; OB-3 completion without eof ends in on_error only, one terminal per path; OB-4 zstd ignores an empty chunk after the end of the stream (the zstandard object raises on any call after its frame ended); AG-5 gzip wbits equal (31); AG-6 "
            "z and zstd skeletons equal. zlib/zstandard streaming semantics are trusted.",
     "C17": _COMMON + "Decided clauses: one incremental codec per subscription built from the encoding parameter; every item goes through "
            "it; final=True flush emitted before completion; defaults incremental=True; json.py does not override them.",
